@@ -397,8 +397,8 @@ func checkC19(p *Prog, r *Report) {
 	// ---- R19.4 appliers agree -----------------------------------------------------
 	r.Rule("R19.4", "Every applier of a lookup result: unmatched -> keep the local address; replace with no externals -> drop the candidate; append with no externals -> keep; replace with externals -> advertise the externals instead; append with externals -> advertise both (server-reflexive: mapped only, the unmapped srflx comes from the STUN gatherer).", 16)
 	for _, ap := range []struct {
-		fn       string
-		orig     string // name of the variable holding the unmapped address list
+		fn                 string
+		orig               string // name of the variable holding the unmapped address list
 		mappedOnlyOnAppend bool
 	}{
 		{"Agent.resolveRelayAddresses", "addresses", false},
@@ -629,7 +629,9 @@ func checkC19(p *Prog, r *Report) {
 	if r.Anchor("newAddressRewriteMapper", nm != nil) {
 		sites := []errSite{
 			{"newAddressRewriteMapper", "peer-reflexive type rejected", func(f *Func, s FactSet) bool {
-				return s.Has(func(ft Fact) bool { return ft.Op == "==" && ft.Val && p.constName(ft.Y) == "CandidateTypePeerReflexive" })
+				return s.Has(func(ft Fact) bool {
+					return ft.Op == "==" && ft.Val && p.constName(ft.Y) == "CandidateTypePeerReflexive"
+				})
 			}, "ErrUnsupportedNAT1To1IPCandidateType"},
 			{"newAddressRewriteMapper", "CIDR parse failure rejected", func(f *Func, s FactSet) bool {
 				_, ok := p.HasCallEqNil(s, f, "net.ParseCIDR", 2, false)
